@@ -34,6 +34,7 @@ set_option maxHeartbeats 1000000 in
 theorem inv_wRet (hi : Inv w s) (b : Bool) (hp : s.wpc = .retn b) : Inv w (doRet s) := by
   have hct : s.calls.tail ≠ [] → s.calls ≠ [] := by
     intro h hc; rw [hc] at h; simp at h
+  have hsub : ∀ c, c ∈ s.calls.tail → c ∈ s.calls := fun c h => List.mem_of_mem_tail h
   unfold doRet
   inv_fields_pc hi hp
 
@@ -60,7 +61,7 @@ theorem inv_wFin (hi : Inv w s) (hp : s.wpc = .idle) (hc : s.calls = []) (hlt : 
   | get =>
       simp only
       exact inv_begin hi s.fi (s.fi + 1) false true hp (by omega) (Nat.le_refl _) (by simp [hc])
-        (fun _ => ⟨hc, rfl, rfl, rfl, hk⟩)
+        (fun _ => ⟨hc, rfl, rfl, rfl, hk, hlt⟩) (fun _ => by omega)
 
 /-- a consuming attach that finds the word not empty finds the result -/
 theorem att_full_ready (hi : Inv w s) (i : Nat) (hp : s.wpc = .att i ∨ s.wpc = .attCas i)
